@@ -2,10 +2,13 @@
 mod allocprobe;
 mod common;
 mod domains;
+mod progspace;
 mod props;
 mod refserde;
 mod refsha;
+mod refvm;
 mod tree;
+mod vectors;
 
 use common::*;
 
@@ -14,6 +17,12 @@ static GLOBAL: allocprobe::Counting = allocprobe::Counting;
 use std::time::Instant;
 
 fn main() {
+    // deep trees (recursive drop / reference interpreter recursion) need a large stack
+    let h = std::thread::Builder::new().stack_size(4 << 30).spawn(real_main).expect("spawn main");
+    h.join().expect("main thread panicked");
+}
+
+fn real_main() {
     let args: Vec<String> = std::env::args().collect();
     if args.len() < 2 {
         eprintln!("usage: vh <property> [--tier quick|thorough] [--seed N] [--out FILE] [--replay FILE] [--wall-cap S]");
